@@ -2,7 +2,7 @@
 """Generates MANIFEST.json. Edit BUILT / META here, then run."""
 import json,os,subprocess
 root=os.path.dirname(os.path.dirname(os.path.abspath(__file__)))
-BUILT=["C07"]
+BUILT=["C07","C08"]
 META={
  "C07":dict(cat="exploration",ref="DESIGN.md §4 C07",
    technique="runtime monitoring: independent byte-class oracle over generated/injected inputs, every result of the real Detect/DetectReader observed",
